@@ -50,6 +50,18 @@ def Arg.mapRefsList (f : Nat → Arg) : List Arg → List Arg
   | x :: xs => x.mapRefs f :: Arg.mapRefsList f xs
 end
 
+mutual
+/-- canonical text of an argument -/
+def Arg.show : Arg → String
+  | .ref i => "%" ++ toString i
+  | .lit s => s
+  | .seq t xs => (if t then "(" else "[") ++ Arg.showList xs ++ (if t then ")" else "]")
+def Arg.showList : List Arg → String
+  | [] => ""
+  | [x] => x.show
+  | x :: xs => x.show ++ ", " ++ Arg.showList xs
+end
+
 structure GNode where
   op : String
   target : String
@@ -69,8 +81,10 @@ def GNode.inputs (n : GNode) : List Nat :=
 
 def lookupKw (kw : List (String × Arg)) (k : String) : Option Arg := (kw.find? (·.1 == k)).map (·.2)
 def eraseKw (kw : List (String × Arg)) (k : String) : List (String × Arg) := kw.filter (·.1 != k)
+/-- `dict(kwargs, k=v)`.  Keyword order is irrelevant to a call; graphs are compared with keywords
+    sorted by name, so the binding is simply moved to the end. -/
 def setKw (kw : List (String × Arg)) (k : String) (v : Arg) : List (String × Arg) :=
-  if kw.any (·.1 == k) then kw.map (fun p => if p.1 == k then (k, v) else p) else kw ++ [(k, v)]
+  eraseKw kw k ++ [(k, v)]
 
 /-- well-formedness: every reference points to an earlier node -/
 def Graph.wellFormed (g : Graph) : Bool :=
